@@ -27,6 +27,20 @@ type prog struct {
 	// assignments of producer shards to machines occur (machine-combined shuffles
 	// are read once per machine, so what a consumer reads depends on them).
 	Stress bool
+	// PragmaOnly: in the quick tier the program runs under the defaults and the
+	// pragma deviations only (it is there for the pragma axis); thorough: everything.
+	PragmaOnly bool
+	// Diamond: not a single Func but a diamond of invocations (see diamond.go);
+	// P is unused.
+	Diamond bool
+}
+
+// text describes the program for messages.
+func (pr prog) text() string {
+	if pr.Diamond {
+		return pr.What
+	}
+	return pr.P.String()
 }
 
 var (
@@ -99,6 +113,16 @@ var programs = []prog{
 }
 
 func init() {
+	programs = append(programs,
+		// One Map consumed twice inside the Func, once narrowly (Filter) and once by
+		// a shuffle into exactly ONE shard (Reshard(1)), in both compile orders; with
+		// Materialize on the Map it is compiled as a dependency of its own for both.
+		prog{Name: "fanout-narrow-then-reshard1", PragmaOnly: true, What: "x=Map(Const 4 shards); Cogroup(Filter(x), Reshard(x,1)): shared slice with a narrow and a 1-partition shuffle consumer",
+			P: refeval.Program{Shape: refeval.ShapeFanout, Src: constSrc(ii, 4, 9, refeval.KeysDistinct), N1: 0, N2: 1}},
+		prog{Name: "fanout-reshard1-then-narrow", PragmaOnly: true, What: "x=Map(Const 4 shards); Cogroup(Reshard(x,1), Filter(x)): the same, other compile order",
+			P: refeval.Program{Shape: refeval.ShapeFanout, Src: constSrc(ii, 4, 9, refeval.KeysDistinct), N1: 1, N2: 0}},
+		prog{Name: "diamond-of-invocations", Diamond: true, What: "a=Run(Const 1 shard); b=Run(Map, a); c=Run(Cogroup(Reshard(a,4), Reshard(b,4)), a, b): later invocations take earlier Results as arguments in a diamond"},
+	)
 	programs = append(programs,
 		prog{Name: "stress-reduce-6x3keys", Stress: true, What: "6 producer shards, 3 keys, Reduce: producer placement stress for machine combiners",
 			P: refeval.Program{Src: constSrc(ii, 6, 60, refeval.KeysDistinct),
